@@ -1122,6 +1122,12 @@ class Server:
         if not real_path.is_relative_to(base_path) or ".." in real_path.parts[len(base_path.parts) :]:
             real_path = base_path
             resolved_virtual_path = pathlib.PurePosixPath("/")
+        elif real_path.parts[len(base_path.parts) :] != resolved_virtual_path.parts[1:]:
+            # one location has one virtual path: a name which the flavour of
+            # the base path reads differently (backslash, drive on windows)
+            # would be a second one, with its own permissions
+            real_path = base_path
+            resolved_virtual_path = pathlib.PurePosixPath("/")
         return real_path, resolved_virtual_path
 
     async def greeting(self, connection, rest):
